@@ -1,0 +1,231 @@
+//go:build verif
+
+// Machine-checked contracts (comment-only; compiled only under the build tag "verif").
+// C09 (a): "validation establishes well-formedness" - whatever the webhook accepts satisfies the structural promises
+// the controllers rely on.
+package validating
+
+//@ define wfTraffic(t) = (t.Gateway != nil ==> t.Gateway.HTTPRouteName != nil && *t.Gateway.HTTPRouteName != "") && (t.Ingress != nil ==> t.Ingress.Name != "") && len(t.Service) > 0 && t.GracePeriodSeconds >= 0 && (t.Gateway != nil || t.Ingress != nil || t.CustomNetworkRefs != nil)
+//@ define pctOf(r) = scaled(r.Type, r.IntVal, r.StrVal, 100, true)
+//@ define stepOK(s, j) = s[j].Replicas != nil && scaledOk(s[j].Replicas.Type, s[j].Replicas.StrVal) && pctOf(s[j].Replicas) > 0 && (s[j].Replicas.Type == 1 ==> pctOf(s[j].Replicas) <= 100)
+//@ define comparable(s, j) = (s[j - 1].Replicas.Type == 1) == (s[j].Replicas.Type == 1)
+//@ define ordered(s, j) = comparable(s, j) ==> pctOf(s[j - 1].Replicas) <= pctOf(s[j].Replicas)
+//@ define wfSteps(s) = len(s) >= 1 && (forall j :: 0 <= j && j < len(s) ==> stepOK(s, j)) && (forall j :: 1 <= j && j < len(s) ==> ordered(s, j))
+
+//@ func validateRolloutSpecCanaryTraffic
+//@ props C09
+//@ ensures accepted_means_wellformed: len(result) == 0 ==> wfTraffic(traffic)
+
+//@ func IsPercentageCanaryReplicasType
+//@ props C09
+//@ ensures result == (replicas == nil || replicas.Type == 1)
+//@ pure
+
+//@ func validateRolloutSpecCanarySteps
+//@ props C09
+//@ ensures nil_or_nonempty: len(result) == 0 ==> result == nil
+//@ requires c != nil
+//@ ensures nonempty: len(result) == 0 ==> len(steps) >= 1
+//@ ensures replicas_valid: len(result) == 0 ==> (forall j :: 0 <= j && j < len(steps) ==> stepOK(steps, j))
+//@ ensures non_decreasing: len(result) == 0 ==> (forall j :: 1 <= j && j < len(steps) ==> ordered(steps, j))
+//@ loop 1 invariant -1 <= rangeindex && rangeindex < len(steps) && stepCount == len(steps) && stepCount >= 1
+//@ loop 1 invariant forall j :: 0 <= j && j <= rangeindex ==> stepOK(steps, j)
+//@ loop 2 invariant 1 <= i$2 && i$2 <= stepCount && stepCount == len(steps)
+//@ loop 2 invariant forall j :: 0 <= j && j < len(steps) ==> stepOK(steps, j)
+//@ loop 2 invariant forall j :: 1 <= j && j < i$2 ==> ordered(steps, j)
+
+//@ func validateRolloutSpecCanaryStrategy
+//@ props C09
+//@ ensures nil_or_nonempty: len(result) == 0 ==> result == nil
+//@ requires c != nil && canary != nil
+//@ ensures steps_valid: len(result) == 0 ==> wfSteps(canary.Steps)
+//@ ensures single_routing: len(result) == 0 ==> len(canary.TrafficRoutings) <= 1
+//@ ensures routings_valid: len(result) == 0 ==> (forall j :: 0 <= j && j < len(canary.TrafficRoutings) ==> wfTraffic(canary.TrafficRoutings[j]))
+//@ loop 1 invariant -1 <= rangeindex && rangeindex < len(canary.TrafficRoutings) && len(errList) >= 0 && (len(errList) == 0 ==> errList == nil)
+//@ loop 1 invariant len(errList) == 0 ==> wfSteps(canary.Steps) && len(canary.TrafficRoutings) <= 1
+//@ loop 1 invariant len(errList) == 0 ==> (forall j :: 0 <= j && j <= rangeindex ==> wfTraffic(canary.TrafficRoutings[j]))
+
+//@ func validateRolloutSpecBlueGreenStrategy
+//@ props C09
+//@ ensures nil_or_nonempty: len(result) == 0 ==> result == nil
+//@ requires c != nil && blueGreen != nil
+//@ ensures steps_valid: len(result) == 0 ==> wfSteps(blueGreen.Steps)
+//@ ensures single_routing: len(result) == 0 ==> len(blueGreen.TrafficRoutings) <= 1
+//@ ensures routings_valid: len(result) == 0 ==> (forall j :: 0 <= j && j < len(blueGreen.TrafficRoutings) ==> wfTraffic(blueGreen.TrafficRoutings[j]))
+//@ loop 1 invariant -1 <= rangeindex && rangeindex < len(blueGreen.TrafficRoutings) && len(errList) >= 0 && (len(errList) == 0 ==> errList == nil)
+//@ loop 1 invariant len(errList) == 0 ==> wfSteps(blueGreen.Steps) && len(blueGreen.TrafficRoutings) <= 1
+//@ loop 1 invariant len(errList) == 0 ==> (forall j :: 0 <= j && j <= rangeindex ==> wfTraffic(blueGreen.TrafficRoutings[j]))
+
+//@ func validateRolloutSpecStrategy
+//@ props C09
+//@ ensures nil_or_nonempty: len(result) == 0 ==> result == nil
+//@ requires c != nil && strategy != nil
+//@ ensures exactly_one_style: len(result) == 0 ==> (strategy.Canary != nil) != (strategy.BlueGreen != nil)
+//@ ensures canary_valid: len(result) == 0 && strategy.Canary != nil ==> wfSteps(strategy.Canary.Steps) && len(strategy.Canary.TrafficRoutings) <= 1 && (forall j :: 0 <= j && j < len(strategy.Canary.TrafficRoutings) ==> wfTraffic(strategy.Canary.TrafficRoutings[j]))
+//@ ensures bluegreen_valid: len(result) == 0 && strategy.BlueGreen != nil ==> wfSteps(strategy.BlueGreen.Steps) && len(strategy.BlueGreen.TrafficRoutings) <= 1 && (forall j :: 0 <= j && j < len(strategy.BlueGreen.TrafficRoutings) ==> wfTraffic(strategy.BlueGreen.TrafficRoutings[j]))
+
+//@ define wfStyle(s, st, tr) = wfSteps(st) && len(tr) <= 1 && (forall j :: 0 <= j && j < len(tr) ==> wfTraffic(tr[j]))
+//@ define wfStrategy(s) = ((s.Canary != nil) != (s.BlueGreen != nil)) && (s.Canary != nil ==> wfSteps(s.Canary.Steps) && len(s.Canary.TrafficRoutings) <= 1 && (forall j :: 0 <= j && j < len(s.Canary.TrafficRoutings) ==> wfTraffic(s.Canary.TrafficRoutings[j]))) && (s.BlueGreen != nil ==> wfSteps(s.BlueGreen.Steps) && len(s.BlueGreen.TrafficRoutings) <= 1 && (forall j :: 0 <= j && j < len(s.BlueGreen.TrafficRoutings) ==> wfTraffic(s.BlueGreen.TrafficRoutings[j])))
+//@ define sameRef(a, b) = a.APIVersion == b.APIVersion && a.Kind == b.Kind && a.Name == b.Name
+
+//@ func GetContextFromv1beta1Rollout
+//@ props C09
+//@ requires rollout != nil
+//@ ensures result != nil && fresh(result)
+//@ pure
+
+//@ func IsSameWorkloadRefGVKName
+//@ props C09
+//@ ensures result == (a != nil && b != nil && sameRef(a, b))
+//@ pure
+
+//@ func validateRolloutSpec
+//@ props C09
+//@ ensures nil_or_nonempty: len(result) == 0 ==> result == nil
+//@ requires c != nil && rollout != nil
+//@ ensures accepted_means_wellformed: len(result) == 0 ==> wfStrategy(rollout.Spec.Strategy)
+
+//@ define listed() = as(iref(#List.arg2), "*v1beta1.RolloutList")
+//@ define noConflict(l, ro, j) = l.Items[j].Name == ro.Name || !sameRef(l.Items[j].Spec.WorkloadRef, ro.Spec.WorkloadRef)
+
+//@ func (*RolloutCreateUpdateHandler).validateRolloutConflict
+//@ props C09
+//@ ensures nil_or_nonempty: len(result) == 0 ==> result == nil
+//@ requires h != nil && h.Client != nil && rollout != nil
+//@ ensures one_rollout_per_workload: len(result) == 0 ==> #List == 1 && (forall j :: 0 <= j && j < len(listed().Items) ==> noConflict(listed(), rollout, j))
+//@ loop 1 invariant a1: #List == 1
+//@ loop 1 invariant a2: listed() == rolloutList
+//@ loop 1 invariant a3: -1 <= rangeindex && rangeindex < len(rolloutList.Items)
+//@ loop 1 invariant forall j :: 0 <= j && j <= rangeindex ==> noConflict(rolloutList, rollout, j)
+
+//@ track (*RolloutCreateUpdateHandler).validateRolloutConflict as conflictCheck
+//@ func (*RolloutCreateUpdateHandler).validateRollout
+//@ props C09
+//@ ensures nil_or_nonempty: len(result) == 0 ==> result == nil
+//@ requires h != nil && h.Client != nil && rollout != nil
+//@ ensures accepted_means_wellformed: len(result) == 0 ==> wfStrategy(rollout.Spec.Strategy)
+//@ ensures accepted_means_conflict_checked: len(result) == 0 ==> #conflictCheck == 1 && len(as(#conflictCheck.ret0, "field.ErrorList")) == 0 && #conflictCheck.arg1 == rollout
+
+//@ define latest() = as(iref(#Get.arg3), "*v1beta1.Rollout")
+//@ define inFlight(p) = p == "Progressing" || p == "Terminating"
+//@ define styleOf(s) = ite(s.BlueGreen != nil, "BlueGreen", ite(s.Canary.EnableExtraWorkloadForCanary, "Canary", "Partition"))
+//@ define stepsOf(s) = ite(s.BlueGreen != nil, s.BlueGreen.Steps, s.Canary.Steps)
+//@ define routingOf(s) = ite(s.BlueGreen != nil, s.BlueGreen.TrafficRoutings, s.Canary.TrafficRoutings)
+
+// The stored object (oldObj) was itself admitted by this webhook, hence has exactly one strategy (assumption on histories, stated as a precondition).
+//@ func (*RolloutCreateUpdateHandler).validateRolloutUpdate
+//@ props C09
+//@ requires h != nil && h.Client != nil && oldObj != nil && newObj != nil && nonEmpty(oldObj.Spec.Strategy)
+//@ ensures accepted_means_wellformed: len(result) == 0 ==> wfStrategy(newObj.Spec.Strategy)
+//@ ensures workload_ref_immutable_in_flight: len(result) == 0 && inFlight(latest().Status.Phase) ==> sameRef(oldObj.Spec.WorkloadRef, newObj.Spec.WorkloadRef)
+//@ ensures style_immutable_in_flight: len(result) == 0 && inFlight(latest().Status.Phase) ==> styleOf(oldObj.Spec.Strategy) == styleOf(newObj.Spec.Strategy)
+//@ ensures step_count_immutable_in_flight: len(result) == 0 && inFlight(latest().Status.Phase) ==> len(stepsOf(oldObj.Spec.Strategy)) == len(stepsOf(newObj.Spec.Strategy))
+
+//@ func validateRolloutSpecObjectRef
+//@ props C09
+//@ requires c != nil
+//@ ensures nil_or_nonempty: len(result) == 0 ==> result == nil
+
+// ---- v1alpha1 ----
+//@ define a1val(s, j) = ite(s[j].Replicas != nil, pctOf(s[j].Replicas), *s[j].Weight)
+//@ define a1stepOK(s, j) = (s[j].Replicas != nil || s[j].Weight != nil) && (s[j].Replicas != nil ==> scaledOk(s[j].Replicas.Type, s[j].Replicas.StrVal) && pctOf(s[j].Replicas) > 0 && (s[j].Replicas.Type == 1 ==> pctOf(s[j].Replicas) <= 100)) && (s[j].Replicas == nil ==> 0 < *s[j].Weight && *s[j].Weight <= 100)
+//@ define a1pct(s, j) = s[j].Replicas == nil || s[j].Replicas.Type == 1
+//@ define a1ordered(s, j) = (a1pct(s, j - 1) == a1pct(s, j)) ==> a1val(s, j - 1) <= a1val(s, j)
+//@ define a1wfSteps(s) = len(s) >= 1 && (forall j :: 0 <= j && j < len(s) ==> a1stepOK(s, j)) && (forall j :: 1 <= j && j < len(s) ==> a1ordered(s, j))
+
+//@ func validateV1alpha1RolloutSpecCanarySteps
+//@ props C09
+//@ requires c != nil
+//@ ensures nil_or_nonempty: len(result) == 0 ==> result == nil
+//@ ensures nonempty: len(result) == 0 ==> len(steps) >= 1
+//@ ensures steps_valid: len(result) == 0 ==> (forall j :: 0 <= j && j < len(steps) ==> a1stepOK(steps, j))
+//@ ensures non_decreasing: len(result) == 0 ==> (forall j :: 1 <= j && j < len(steps) ==> a1ordered(steps, j))
+//@ loop 1 invariant -1 <= rangeindex && rangeindex < len(steps) && stepCount == len(steps) && stepCount >= 1
+//@ loop 1 invariant forall j :: 0 <= j && j <= rangeindex ==> a1stepOK(steps, j)
+//@ loop 2 invariant 1 <= i$2 && i$2 <= stepCount && stepCount == len(steps)
+//@ loop 2 invariant forall j :: 0 <= j && j < len(steps) ==> a1stepOK(steps, j)
+//@ loop 2 invariant forall j :: 1 <= j && j < i$2 ==> a1ordered(steps, j)
+
+//@ func validateV1alpha1RolloutSpecCanaryTraffic
+//@ props C09
+//@ ensures accepted_means_wellformed: len(result) == 0 ==> wfTraffic(traffic)
+
+//@ func validateV1alpha1RolloutSpecCanaryStrategy
+//@ props C09
+//@ requires c != nil || canary == nil
+//@ ensures nil_or_nonempty: len(result) == 0 ==> result == nil
+//@ ensures canary_set: len(result) == 0 ==> canary != nil
+//@ ensures steps_valid: len(result) == 0 ==> a1wfSteps(canary.Steps)
+//@ ensures single_routing: len(result) == 0 ==> len(canary.TrafficRoutings) <= 1
+//@ ensures routings_valid: len(result) == 0 ==> (forall j :: 0 <= j && j < len(canary.TrafficRoutings) ==> wfTraffic(canary.TrafficRoutings[j]))
+//@ loop 1 invariant canary != nil && -1 <= rangeindex && rangeindex < len(canary.TrafficRoutings) && len(errList) >= 0 && (len(errList) == 0 ==> errList == nil)
+//@ loop 1 invariant len(errList) == 0 ==> a1wfSteps(canary.Steps) && len(canary.TrafficRoutings) <= 1
+//@ loop 1 invariant len(errList) == 0 ==> (forall j :: 0 <= j && j <= rangeindex ==> wfTraffic(canary.TrafficRoutings[j]))
+
+//@ define a1wfStrategy(s) = s.Canary != nil && a1wfSteps(s.Canary.Steps) && len(s.Canary.TrafficRoutings) <= 1 && (forall j :: 0 <= j && j < len(s.Canary.TrafficRoutings) ==> wfTraffic(s.Canary.TrafficRoutings[j]))
+
+//@ func validateV1alpha1RolloutSpecStrategy
+//@ props C09
+//@ requires strategy != nil && (c != nil || strategy.Canary == nil)
+//@ ensures nil_or_nonempty: len(result) == 0 ==> result == nil
+//@ ensures accepted_means_wellformed: len(result) == 0 ==> a1wfStrategy(strategy)
+
+//@ func validateV1alpha1RolloutRollingStyle
+//@ props C09
+//@ requires rollout != nil
+//@ ensures nil_or_nonempty: len(result) == 0 ==> result == nil
+//@ pure
+
+//@ func validateV1alpha1RolloutSpecObjectRef
+//@ props C09
+//@ requires objectRef != nil
+//@ ensures nil_or_nonempty: len(result) == 0 ==> result == nil
+//@ ensures workload_ref_set: len(result) == 0 ==> objectRef.WorkloadRef != nil
+
+//@ func validateV1alpha1RolloutSpec
+//@ props C09
+//@ requires rollout != nil && (c != nil || rollout.Spec.Strategy.Canary == nil)
+//@ ensures nil_or_nonempty: len(result) == 0 ==> result == nil
+//@ ensures accepted_means_wellformed: len(result) == 0 ==> a1wfStrategy(rollout.Spec.Strategy) && rollout.Spec.ObjectRef.WorkloadRef != nil
+
+// The context is nil exactly when there is no canary strategy (in which case validation rejects before using it).
+// GetContextFromv1alpha1Rollout dereferences Spec.ObjectRef.WorkloadRef before validation has checked it: a v1alpha1
+// Rollout without workloadRef makes the admission handler panic (recovered by net/http: the request fails, the process
+// survives). That obligation (safe-nil:targetRef) is refuted and stays in the baseline of unclaimed obligations.
+//@ func GetContextFromv1alpha1Rollout
+//@ props C09
+//@ requires rollout != nil
+//@ ensures (result == nil) == (rollout.Spec.Strategy.Canary == nil)
+
+//@ func IsSameV1alpha1WorkloadRefGVKName
+//@ props C09
+//@ ensures result == (a != nil && b != nil && sameRef(a, b))
+//@ pure
+
+//@ define a1listed() = as(iref(#List.arg2), "*v1alpha1.RolloutList")
+//@ define a1noConflict(l, ro, j) = l.Items[j].Name == ro.Name || !(l.Items[j].Spec.ObjectRef.WorkloadRef != nil && ro.Spec.ObjectRef.WorkloadRef != nil && sameRef(l.Items[j].Spec.ObjectRef.WorkloadRef, ro.Spec.ObjectRef.WorkloadRef))
+
+//@ func (*RolloutCreateUpdateHandler).validateV1alpha1RolloutConflict
+//@ props C09
+//@ requires h != nil && h.Client != nil && rollout != nil
+//@ ensures nil_or_nonempty: len(result) == 0 ==> result == nil
+//@ ensures one_rollout_per_workload: len(result) == 0 ==> #List == 1 && (forall j :: 0 <= j && j < len(a1listed().Items) ==> a1noConflict(a1listed(), rollout, j))
+//@ loop 1 invariant #List == 1 && a1listed() == rolloutList && -1 <= rangeindex && rangeindex < len(rolloutList.Items)
+//@ loop 1 invariant forall j :: 0 <= j && j <= rangeindex ==> a1noConflict(rolloutList, rollout, j)
+
+//@ track (*RolloutCreateUpdateHandler).validateV1alpha1RolloutConflict as a1conflictCheck
+//@ func (*RolloutCreateUpdateHandler).validateV1alpha1Rollout
+//@ props C09
+//@ requires h != nil && h.Client != nil && rollout != nil
+//@ ensures nil_or_nonempty: len(result) == 0 ==> result == nil
+//@ ensures accepted_means_wellformed: len(result) == 0 ==> a1wfStrategy(rollout.Spec.Strategy) && rollout.Spec.ObjectRef.WorkloadRef != nil
+//@ ensures accepted_means_conflict_checked: len(result) == 0 ==> #a1conflictCheck == 1 && len(as(#a1conflictCheck.ret0, "field.ErrorList")) == 0 && #a1conflictCheck.arg1 == rollout
+
+//@ define a1latest() = as(iref(#Get.arg3), "*v1alpha1.Rollout")
+
+// The stored object (oldObj) was itself admitted by this webhook, hence has a canary strategy (assumption on histories, stated as a precondition).
+//@ func (*RolloutCreateUpdateHandler).validateV1alpha1RolloutUpdate
+//@ props C09
+//@ requires h != nil && h.Client != nil && oldObj != nil && newObj != nil && oldObj.Spec.Strategy.Canary != nil
+//@ ensures accepted_means_wellformed: len(result) == 0 ==> a1wfStrategy(newObj.Spec.Strategy) && newObj.Spec.ObjectRef.WorkloadRef != nil
+//@ ensures style_immutable_in_flight: len(result) == 0 && inFlight(a1latest().Status.Phase) ==> toLower(oldObj.Annotations["rollouts.kruise.io/rolling-style"]) == toLower(newObj.Annotations["rollouts.kruise.io/rolling-style"])
